@@ -114,6 +114,9 @@ def build_lean(targets):
     return r.returncode == 0, (r.stdout + r.stderr)
 
 
+TIER = "quick"      # set by main.py
+
+
 FORBIDDEN = re.compile(r"\bsorry\b|\badmit\b|^\s*axiom\s|native_decide|bv_decide|implemented_by|\bunsafe\s|maxHeartbeats\s+0")
 ALLOWED_AXIOMS = {"propext", "Classical.choice", "Quot.sound"}
 
@@ -270,19 +273,30 @@ def proof_step(pid, extra_targets=()):
             broken.append({"obligation": f"axiom audit of BklProofs.Facts.{g}", "detail": fo[-1000:]})
             aok = False
     files = [os.path.join(LEAN, "BklProofs", pid + ".lean")]
-    for root, _, fs in os.walk(os.path.join(LEAN, "BklProofs", "Lemmas")):
-        files += [os.path.join(root, f) for f in fs if f.endswith(".lean")]
+    for sub in ("Lemmas", "Facts"):
+        for root, _, fs in os.walk(os.path.join(LEAN, "BklProofs", sub)):
+            files += [os.path.join(root, f) for f in fs if f.endswith(".lean")]
     for root, _, fs in os.walk(os.path.join(LEAN, "Bkl")):
         files += [os.path.join(root, f) for f in fs if f.endswith(".lean")]
     hits = grep_forbidden(files)
     if hits:
         broken.append({"obligation": "no sorry/admit/axiom/native_decide in model and proofs", "detail": hits})
+    checker = None
+    if TIER == "thorough" and ok:
+        # the toolchain's independent re-checker replays the compiled declarations of the property's modules in a fresh kernel
+        mods = ["BklProofs." + pid] + ["BklProofs.Facts." + g for g in FACTS.get(pid, [])]
+        with Lock("lake"):
+            r = sh(["lake", "env", "leanchecker"] + mods, cwd=LEAN, check=False, timeout=3600)
+        checker = {"cmd": "lake env leanchecker " + " ".join(mods), "rc": r.returncode}
+        if r.returncode != 0:
+            broken.append({"obligation": "leanchecker replay of " + " ".join(mods), "detail": (r.stdout + r.stderr)[-1500:]})
     return {
         "theorems": thms,
         "obligations": max(1, len(thms)) if ok else max(1, len(thms)),
         "discharged": len([t for t, a in thms.items() if set(a) <= ALLOWED_AXIOMS]) if ok and aok else 0,
         "checker_cmd": f"cd /verif/lean && lake build BklProofs.{pid} && lake env lean BklProofs/Audit/{pid}.lean",
         "proof_wall_s": round(time.time() - t0, 1),
+        "leanchecker": checker,
     }, broken
 
 
@@ -626,6 +640,7 @@ class Report:
                 "checker_cmd": self.proof["checker_cmd"],
                 "theorems": self.proof["theorems"],
                 "proof_wall_s": self.proof["proof_wall_s"],
+                "leanchecker": self.proof.get("leanchecker"),
                 "broken_obligations": self.broken,
             })
         cov.update(self.extra)
